@@ -275,11 +275,16 @@ tzm_find(tzmap_t m, const char *mname)
 			/* use lower half */
 			ep = (const znoff_t*)p - 1U;
 		} else {
-			/* forward to the next znoff_t alignment */
-			const znoff_t *op =
-				(const znoff_t*)ALIGN_TO(znoff_t, tp - 1U) + 1U;
+			const int found = *mp == *tp;
+			const znoff_t *op;
 
-			if (*mp - *tp > 0) {
+			/* fast forward to the end of the key, which may
+			 * well span several znoff_t's */
+			for (; *tp; tp++);
+			/* forward to the next znoff_t alignment */
+			op = (const znoff_t*)ALIGN_TO(znoff_t, tp - 1U) + 1U;
+
+			if (!found) {
 				/* use upper half */
 				sp = op + 1U;
 			} else {
